@@ -233,7 +233,9 @@ OneShot(s, sub, comm) ==      \* ShutdownPeer / ResetPeer: fsm.notification, one
 Delete(s) ==
   LET s1 == IF s.st = "Established" THEN SendNotif(s, s.cur, 6, 3, "")
             ELSE IF s.cur # "none" /\ s[s.cur].live THEN CloseC(s, s.cur) ELSE s     \* DEVIATION (no Cease)
-      s2 == StopOcm(s1)                                     \* loop() exit closes fsm.conn only; leaked ones stay
+      \* cancelling the context ends a running ocm (its connection is closed); a connection already
+      \* waiting in outgoingConnCh is never closed (DEVIATION, leaked); loop() exit closes fsm.conn only
+      s2 == IF s1.parkedConn THEN [s1 EXCEPT !.ocm = "off", !.ocmT = -1, !.ocmHold = -1] ELSE StopOcm(s1)
   IN Wev([ClearTimers(s2) EXCEPT !.deleted = TRUE, !.cur = "none", !.idleT = -1, !.rib = 0, !.stuck = FALSE], "Idle")
 
 (* ---------------------------------------------------------------------------------------- *)
@@ -269,6 +271,8 @@ MStep(s0, e) ==
      [] e.ev = "InConnect" -> InConnect(s)
      [] e.ev = "OutConnect" -> OutConnect(s)
      [] e.ev = "OutFail" -> OutFail(s)
+     [] e.ev = "Close" -> LET r == Recv(s, e) IN        \* the neighbour's own close also ends its reader (EOF)
+                          IF s.o[CId(e)].known THEN [r EXCEPT !.o[CId(e)].closed = TRUE] ELSE r
      [] e.ev \in MsgEvents -> Recv(s, e)
      [] e.ev = "Disable" -> Disable(s, e.comm)
      [] e.ev = "Enable" -> Enable(s)
@@ -284,6 +288,7 @@ MStep(s0, e) ==
 Ev(ev, c, kind, hold, d, n, code, sub, comm) ==
   [ev |-> ev, c |-> c, kind |-> kind, hold |-> hold, d |-> d, n |-> n, code |-> code, sub |-> sub, comm |-> comm]
 CName(c) == IF c = CO THEN "out" ELSE "in"
+NoEv == Ev("Reset", "", "", 0, 0, 0, 0, 0, "")
 
 OpenKinds == {"ok", "badver", "badas", "badid", "hold1", "hold2", "unsupopt", "malopt", "short"}
 GarbageKinds == {"marker", "lenshort", "lenlong", "type", "kalen"}
